@@ -210,31 +210,16 @@ theorem step_gameBlind (s : State) (e : Event) :
         simp only [hg] at h
         exact gb_openCore _ ch ok h
   | retry ch ok =>
-    by_cases h : (retryOpen s ch ok).2 = .opened
-    · right
-      refine ⟨⟨ch, ok, Or.inr ⟨rfl, h⟩⟩, ?_⟩
-      show (retryOpen s ch ok).1.gameBlind = some s.blind
-      unfold retryOpen at h ⊢
-      split
-      · rename_i h1; simp [h1] at h
-      · split
-        · rename_i h1 h2; simp [h1, h2] at h
-        · split
-          · rename_i h1 h2 h3; simp [h1, h2, h3] at h
-          · rename_i h1 h2 h3
-            simp only [h1, h2, h3, Bool.false_eq_true, if_false] at h
-            exact (openCore_opened _ _ _ h).2.2.2.1
-    · left
-      show (retryOpen s ch ok).1.gameBlind = s.gameBlind
-      unfold retryOpen at h ⊢
-      split
-      · rfl
-      · split
-        · rfl
-        · split
-          · rfl
-          · rename_i h1 h2 h3
-            simp only [h1, h2, h3, Bool.false_eq_true, if_false] at h
-            exact gb_openCore s ch ok h
+    rcases retryOpen_cases s ch ok with h | h | ⟨_, _, _, _, _, h⟩
+    · left; show (retryOpen s ch ok).1.gameBlind = s.gameBlind; rw [h]
+    · left; show (retryOpen s ch ok).1.gameBlind = s.gameBlind; rw [h]
+    · by_cases ho : (openCore s ch ok).2 = .opened
+      · right
+        refine ⟨⟨ch, ok, Or.inr ⟨rfl, by rw [h]; exact ho⟩⟩, ?_⟩
+        show (retryOpen s ch ok).1.gameBlind = some s.blind
+        rw [h]; exact (openCore_opened _ _ _ ho).2.2.2.1
+      · left
+        show (retryOpen s ch ok).1.gameBlind = s.gameBlind
+        rw [h]; exact gb_openCore s ch ok ho
 
 end TB
